@@ -496,7 +496,11 @@ func (e *kvElection) attemptPriorityTakeover(payloadBytes []byte) error {
 
 	var currentPayload leadershipPayload
 	if err := json.Unmarshal(entry.Value(), &currentPayload); err != nil {
-		return e.attemptAcquire()
+		// An unreadable record cannot be compared with: report the failure and let the
+		// caller's retry/backoff (or the periodic check) decide when to try again.
+		// Calling attemptAcquire() again from here recursed without delay or bound for
+		// as long as the record stayed unreadable.
+		return fmt.Errorf("cannot parse current leadership record: %w", err)
 	}
 
 	if e.cfg.Priority <= currentPayload.Priority {
